@@ -35,7 +35,13 @@ unconditionally:
                                                      (`readDictionaryPage`)
   F27   DATA_PAGE_V2 is NOT_IMPLEMENTED              (`finishDataPage`)
   F58   the level decoder stops at a bit-packed group that is cut short (`Impl.Rle.levelsLoop`)
-`Fixes.head` switches this component's four repairs off (the other five stay on).
+and repair F63 (fixes/F63-….patch; component `f63`), also unconditional here:
+  F63   a data page whose header says `num_values = 0` is not decoded: after the size, body and
+        checksum tests both loaders return "loaded, no rows", and `carquet_read_next_page` goes on
+        to the page behind it (the `while` is `Impl.ColumnReader.prepareLoop`)   (`finishDataPage`)
+        The decoded page is the same before and after this repair (no levels, no values); what the
+        repair changes for a caller is the column reader's loop (`ColumnReader.Fixes.f63`).
+`Fixes.head` switches this component's four repairs off (the other six stay on).
 
 A file is its bytes (`List UInt8`).  The three ways of opening are `Mode`; `fread`'s
 `fseek`+`fread` is "the bytes that exist at that offset" (`fileReadAt`), the mapped paths index
@@ -642,8 +648,9 @@ def stateAfterPrep (fx : Fixes) (L : Libs) (verify : Bool) (mode : Mode) (b : By
     else st
 
 /-- The rest of `load_next_page_*` once the data page's header `hr` has been found in state `st`:
-page-type tests (F27), size and count tests, body, checksum, zero-copy view or decompression and
-`carquet_read_data_page_v1`. -/
+page-type tests (F27), size and count tests, body, checksum, the return for a page without values
+(F63: nothing is decompressed or decoded, the decoded buffers and the ownership flag keep what they
+hold — `view` is reported `false`), zero-copy view or decompression and `carquet_read_data_page_v1`. -/
 def finishDataPage (fx : Fixes) (L : Libs) (verify : Bool) (mode : Mode) (b : Bytes) (c : Col) (st : PState)
     (hr : PageHdr × Nat) : Load PageLoaded :=
   if hr.1.type = 3 then Load.pure (.error .notImplemented)
@@ -653,6 +660,7 @@ def finishDataPage (fx : Fixes) (L : Libs) (verify : Bool) (mode : Mode) (b : By
   else
     (Load.ofPair (bodyBytes mode b (st.dataStart + st.currentPage).toNat hr.2 hr.1.compressed.toNat)).andThen (fun body =>
       if crcBad verify hr.1.crc body then Load.pure (.error .crcMismatch)
+      else if hr.1.word0 = 0 then Load.pure (.ok ⟨⟨[], [], []⟩, hr.2, hr.1.compressed.toNat, false⟩)
       else if takesView fx mode c hr.1 then
         (viewPage b c ((st.dataStart + st.currentPage).toNat + hr.2) hr.1.word0.toNat).andThen (fun d =>
           Load.pure (.ok ⟨d, hr.2, hr.1.compressed.toNat, true⟩))
